@@ -89,7 +89,20 @@ func Rewrite(t *rapid.T, cfg Cfg) *ast.Node {
 	s := &state{cfg: cfg}
 	var piece func(d int) *ast.Node
 	piece = func(d int) *ast.Node {
-		switch rapid.IntRange(0, 15).Draw(t, "rwpiece") {
+		switch rapid.IntRange(0, 16).Draw(t, "rwpiece") {
+		case 16: // a loop, then an optional single set (or an optional set loop), then something that may overlap the loop
+			q := ast.Quant(s.rwSet(t), 0, 1, rapid.IntRange(0, 2).Draw(t, "rwoptlazy") == 0)
+			if rapid.Bool().Draw(t, "rwoptloop") {
+				q = ast.Quant(ast.Group(ast.GNon, ast.Seq(s.rwStr(t, 1, 1), s.rwLoop(t))), 0, -1, false)
+			}
+			if rapid.Bool().Draw(t, "rwoptatomic") {
+				// an atomic optional keeps what it took: only the loop before it can make room
+				q = ast.Group(ast.GAtomic, q)
+			}
+			if rapid.Bool().Draw(t, "rwoptlit") {
+				return ast.Seq(s.rwLoop(t), q, s.rwStr(t, 1, 2))
+			}
+			return ast.Seq(s.rwLoop(t), q, piece(d-1))
 		case 15:
 			// inside a lookbehind the pieces run right to left: a literal of two or more characters
 			// followed (in the text) by a loop that overlaps the literal's last but not its first character
